@@ -4,10 +4,10 @@ package main
 // contracts, effects (ghost trace counters), havoc defaults.
 
 import (
-	"sort"
 	"fmt"
 	"go/token"
 	"go/types"
+	"sort"
 	"strings"
 
 	"golang.org/x/tools/go/ssa"
@@ -1127,7 +1127,11 @@ func (fr *Frame) callSiteAsserts(st *State, g string, cname string, after bool, 
 				env.names["arg"+fmt.Sprint(i)] = TV{term: args[i], typ: sig.Params().At(i).Type()}
 			}
 		}
-		tt := t.evalGoal(a.C, env, "call-site assertion")
+		a := a
+		tt, bound := t.tolerate(func() string { return t.evalGoal(a.C, env, "call-site assertion") })
+		if !bound {
+			continue
+		}
 		label := a.C.Label
 		if label == "" {
 			label = fmt.Sprint(k)
@@ -1169,7 +1173,11 @@ func (fr *Frame) callSiteAssertsAfter(st *State, g string, cname string, args, r
 		for i := range res {
 			env.names["ret"+fmt.Sprint(i)] = TV{term: res[i], typ: callee.Signature.Results().At(i).Type()}
 		}
-		tt := t.evalGoal(a.C, env, "call-site assertion")
+		a := a
+		tt, bound := t.tolerate(func() string { return t.evalGoal(a.C, env, "call-site assertion") })
+		if !bound {
+			continue
+		}
 		label := a.C.Label
 		if label == "" {
 			label = fmt.Sprint(k)
@@ -1372,7 +1380,9 @@ func (fr *Frame) modifiesAll() bool {
 
 // sortSearch: assumed contract of sort.Search(n, f) for an arbitrary predicate f
 // (it follows from the loop invariant of the binary search, no monotonicity needed):
-//   0 <= r <= n,  r < n ==> f(r),  r > 0 ==> !f(r-1)
+//
+//	0 <= r <= n,  r < n ==> f(r),  r > 0 ==> !f(r-1)
+//
 // f(r) and f(r-1) are obtained by inlining the real closure body.
 func (fr *Frame) sortSearch(st *State, g string, n string, mc *ssa.MakeClosure, pos token.Pos) (*State, []string) {
 	vc := fr.vc
